@@ -29,7 +29,7 @@ def make_iter(E, it, node):
     if isinstance(it, PyList):
         return Iter(items=list(it.items))
     if isinstance(it, (tuple, list)) and not (it and isinstance(it[0], str) and it[0] in
-                                              ('range', 'enumerate', 'zip', 'genexp', 'symkeys')):
+                                              ('range', 'enumerate', 'zip', 'genexp', 'symkeys', 'product')):
         return Iter(items=list(it))
     if isinstance(it, tuple) and it and it[0] == 'range':
         lo, hi = it[1], it[2]
@@ -69,6 +69,16 @@ def make_iter(E, it, node):
             cnt = z3.If(i.count < cnt, i.count, cnt)
         return Iter(count=z3.simplify(cnt), elem=lambda k: tuple(i.elem(k) for i in inners),
                     deps=tuple(d for i in inners for d in i.deps))
+    if isinstance(it, tuple) and it and it[0] == 'product' and len(it) == 3:
+        # itertools.product(a, b): all pairs, the second component running fastest
+        ia, ib = make_iter(E, it[1], node), make_iter(E, it[2], node)
+        if ia.items is not None and ib.items is not None:
+            return Iter(items=[(x, y) for x in ia.items for y in ib.items])
+        ca = ia.count if ia.items is None else z3.IntVal(len(ia.items))
+        cb = ib.count if ib.items is None else z3.IntVal(len(ib.items))
+        if ia.items is not None or ib.items is not None:
+            raise Unsupported('product of a concrete and a symbolic iterable')
+        return Iter(count=z3.simplify(ca * cb), elem=lambda k: (ia.elem(k / cb), ib.elem(k % cb)), deps=ia.deps + ib.deps)
     from . import grid as _grid
     if isinstance(it, _grid.Lazy):
         return Iter(count=it.count, elem=it.elem)
@@ -408,6 +418,20 @@ def exec_for(E, s):
 
 
 def eval_comprehension(E, n):
+    if len(n.generators) == 2 and not n.generators[0].ifs and not n.generators[1].ifs:
+        # [x for row in rows for x in row] over a list of equally long lists of opaque values: the row-major flattening
+        from . import grid as _grid
+        g0, g1 = n.generators
+        outer = E.eval(g0.iter)
+        if (_grid.is_grid(outer) and outer.lead == 2 and len(outer.shape) == 2 and isinstance(g0.target, ast.Name)
+                and isinstance(g1.iter, ast.Name) and g1.iter.id == g0.target.id and isinstance(g1.target, ast.Name)
+                and isinstance(n.elt, ast.Name) and n.elt.id == g1.target.id):
+            flat = _grid.grid_flatten(E, outer, n)
+            flat.kind = 'list'
+            if getattr(outer, 'elem_kind', None):
+                flat.elem_kind = outer.elem_kind
+            return flat
+        raise Unsupported('nested comprehension')
     if len(n.generators) != 1:
         raise Unsupported('nested comprehension')
     gen = n.generators[0]
